@@ -222,5 +222,17 @@ PROPS["C15"] = {
     "assumptions": ["values in range: u(k) fits, ue(v) < 2^32, se(v) within 32 bits"],
 }
 
+
+PROPS["C16"] = {
+    "level": "proof",
+    "technique": "Lean 4 proof (NAL-unit walkers total and bounded by the input on every byte string; every parser written in the syntax DSL is total with a syntactic bound on its output, instantiated for the AVC SPS) + model-vs-code correspondence on hostile inputs + isolated-worker exploration for the runtime clauses (panic, wall time, allocation)",
+    "level_text": "PARTIAL by nature. Proved (Props/C16.lean, for every byte string): the length-prefixed walkers of avc/nalus.go, avc/avc.go, hevc/hevc.go, avc/annexb.go (Model/Nalu.lean, checked cursor) return only pieces of the input (sum of lengths + 4 per unit <= |s|), at most one type per 4 bytes, rewrite in place without changing the length, and stop within |s|+1 steps; every parser expressible in the bitstream-syntax DSL returns on every reader state within a purely syntactic fuel bound with at most a syntactic number of values, and for the AVC SPS these bounds are the constants 5124 steps / 1305 values. Tie: the models answer the same hostile inputs as the real helpers (54 000 lines per quick run: walkers on damaged length fields / short samples / random bytes, ADTS and AudioSpecificConfig decoders, SEI extraction and typed SEI decoders on short payloads, AVC SPS with bit flips / huge Exp-Golomb codes / random bodies) and the answers are compared. NOT provable in a model and decided by exploration: absence of Go panics, time and allocation of the 65 real entry points (avc, hevc, sei, aac, av1, and the library call sequences of mp4ff-nallister / mp4ff-pslister); each (entry point, input) pair runs in an isolated child process (RLIMIT_AS, GOMAXPROCS=1, marker before each entry point so that a dying worker names the culprit); oracle: returns, no panic, time <= 100 ms + 4 us/byte (re-run alone before reporting), TotalAlloc <= 512*len + 256 KiB.",
+    "level_note": "Trusted: Lean kernel, allowed axioms, hand transcriptions validated by correspondence; harness workers (RLIMIT_AS, watchdog, TotalAlloc accounting).",
+    "trusted": ["Model/Nalu.lean, Model/AvcSps.lean, Model/Aac.lean, Model/Sei.lean hand transcriptions", "harness workers and measurement"],
+    "unmodelled": ["HEVC parameter-set and slice-header parsers, AVC PPS / slice header, configuration-record decoders, String()/Payload() methods: runtime exploration only"],
+    "partial": ["no-panic, time and memory clauses are decided by exploration (about 4 000 000 evaluations quick, 48 000 000 thorough), not by proof; the theorems bound the modelled walkers and the AVC SPS parser"],
+    "assumptions": [],
+}
+
 # reasons for properties that are not claimed (yet)
 NOT_CLAIMED = {}
